@@ -18,7 +18,9 @@ LEVEL_TEXT = ("PARTIAL. Proved in Coq for every trace of atomic durable transiti
               "the stored operations of the topic above the cursor (C15_replay_exact, C15_delivered_exact); the cursor is the per-log maximum "
               "of committed acknowledgements (C15_cursor_is_max_acked), hence the replay set is exactly 'stored and not acknowledged, neither "
               "itself nor a later operation of its log' (C15_replay_iff_not_acked), C15_acked_not_redelivered, C15_unacked_replayed, "
-              "C15_replay_then_restart; API calls cut by a crash are such traces (C15_crash_anywhere_in_api_calls). The model is tied to the code on "
+              "C15_replay_then_restart; API calls cut by a crash are such traces (C15_crash_anywhere_in_api_calls); k acknowledgements in flight at once through the "
+              "stream's one Acked (permit modelled, Model/AckConc.v) leave, in every interleaving, the tables of the same acks made one after the other in some order "
+              "(C15_concurrent_acks_serialisable), so none of them is replayed after a restart (C15_concurrent_acks_not_redelivered). The model is tied to the code on "
               "every run: histories of publish/prune/import/ack on a real Node, crashed after each session and inside calls, restarted on the "
               "same database; tables are read with raw SQL before every restart; model line and implementation line are compared, the oracle "
               "checks the property on the observed tables and events. SQLite durability/atomicity and the process model are assumed, not verified.")
@@ -27,7 +29,7 @@ LEVEL_NOTE = ("Trusted: Coq kernel + vm_compute; hand-written model of acked.rs/
               "tasks at once; harness/python glue. Correspondence is differential testing bounded by the generators.")
 ASSUMPTIONS = ["SQLite: a committed transaction / single statement is atomic and survives a process crash (modelled, exercised by abort() runs, not verified)",
                "process model: a crash stops every task and thread of the node at once; restart uses the same signing key and database file",
-               "one Acked instance per cursor name at a time (acks serialised by the stream's semaphore); restarts use StreamFrom::Frontier",
+               "one Acked instance per cursor name at a time; tokio's Semaphore (one permit, FIFO, released on drop) serialises the calls made through it - modelled, exercised by the concurrent bursts; restarts use StreamFrom::Frontier",
                "imported operations carry the log id of the topic they are imported into; operation ids (hashes) are unique"]
 TRUSTED = ["modelled not verified: SQLite durability and atomicity, tokio task/thread scheduling of the stream task and pipeline thread, ed25519/BLAKE3, CBOR codecs"]
 RULE = ("quick: 4 fixed histories with a burst of concurrent acknowledgements (join_all free running / every call held at each schedule point of Acked::ack in turn / "
